@@ -187,7 +187,17 @@ def attach_handle_rules(ctx, F, rule="R17.5"):
         # attach stores the join handle in the global pair: the handle parameter flows into the stored aggregate
         st = F.statics
     ctx.floor(rule, "global_entry_sink! instances in library crates", inst, 1)
-    sinks = [s for s in F.statics if s["crate"] == SM and "RwLock<core::option::Option<(metrique_writer_core::sink::BoxEntrySink, alloc::boxed::Box<" in s["ty"]]
+    # the global slot holds the sink together with its join handle: as a tuple, or as a private struct with exactly those two fields
+    def _pair(ty):
+        if "RwLock<core::option::Option<(metrique_writer_core::sink::BoxEntrySink, alloc::boxed::Box<" in ty:
+            return True
+        for d_, a_ in F.adts.items():
+            if a_["crate"] == SM and ("RwLock<core::option::Option<%s>>" % d_) in ty and len(a_["variants"]) == 1:
+                tys_ = [f_["ty"] for f_ in a_["variants"][0]["fields"]]
+                if len(tys_) == 2 and "metrique_writer_core::sink::BoxEntrySink" in tys_ and any(t_.startswith(("alloc::boxed::Box<dyn ", "alloc::boxed::Box<(dyn ")) for t_ in tys_):
+                    return True
+        return False
+    sinks = [s for s in F.statics if s["crate"] == SM and _pair(s["ty"])]
     ctx.check(len(sinks) >= 1, rule, SM + "::SINK#holds-sink-and-handle", "", "global slot no longer stores (sink, join handle) together",
               "static type: %s" % (sinks[0]["ty"] if sinks else ""))
 
@@ -199,8 +209,8 @@ def run(ctx):
     # the macro's private helpers by signature (their names are an implementation detail): the test-sink lookup is the parameterless local
     # fn returning Option<BoxEntrySink>; the runtime registry accessor returns the &'static map keyed by runtime id
     BOXSINK = "metrique_writer_core::sink::BoxEntrySink"
-    lookup_defs = {b_.def_ for b_ in F.all_bodies(SM) if b_.kind == "Fn" and not (b_.d.get("inputs") or []) and b_.d.get("output") == "core::option::Option<%s>" % BOXSINK}
-    rt_defs = {b_.def_ for b_ in F.all_bodies(SM) if b_.kind == "Fn" and not (b_.d.get("inputs") or []) and "HashMap<tokio::runtime::id::Id" in (b_.d.get("output") or "")}
+    lookup_defs = {b_.def_ for b_ in F.all_bodies(SM) if b_.kind in ("Fn", "AssocFn") and not ((b_.impl or {}).get("trait")) and not (b_.d.get("inputs") or []) and b_.d.get("output") == "core::option::Option<%s>" % BOXSINK}
+    rt_defs = {b_.def_ for b_ in F.all_bodies(SM) if b_.kind in ("Fn", "AssocFn") and not (b_.d.get("inputs") or []) and "HashMap<tokio::runtime::id::Id" in (b_.d.get("output") or "")}
     is_rt = lambda c: c.is_("tokio::runtime::Handle::try_current") or c.def_ in rt_defs
     is_test_lookup = lambda c: c.def_ in lookup_defs
     is_read = lambda c: c.is_("std::sync::poison::rwlock::RwLock::<T>::read", "std::sync::rwlock::RwLock::<T>::read")
